@@ -735,30 +735,44 @@ class AttackGraph():
                     attacker.name)
 
 
-        attacker.id = attacker_id if attacker_id is not None \
+        # Check everything first, a call that is rejected must not leave a
+        # half-added attacker behind.
+        if any(graph_attacker is attacker \
+                for graph_attacker in self.attackers):
+            raise ValueError(
+                f'Attacker "{attacker.name}" is already part of the graph.')
+
+        new_attacker_id = attacker_id if attacker_id is not None \
             else self.next_attacker_id
-        if attacker.id in self._id_to_attacker:
+        if new_attacker_id in self._id_to_attacker:
             raise ValueError(f'Attacker index {attacker_id} already in use.')
 
-        self.next_attacker_id = max(attacker.id + 1, self.next_attacker_id)
+        reached_nodes = []
         for node_id in reached_attack_steps:
             node = self.get_node_by_id(node_id)
             if node:
-                attacker.compromise(node)
+                reached_nodes.append(node)
             else:
                 msg = ("Could not find node with id %d"
                        "in reached attack steps.")
                 logger.error(msg, node_id)
                 raise AttackGraphException(msg % node_id)
+        entry_point_nodes = []
         for node_id in entry_points:
             node = self.get_node_by_id(int(node_id))
             if node:
-                attacker.entry_points.append(node)
+                entry_point_nodes.append(node)
             else:
                 msg = ("Could not find node with id %d"
                        "in attacker entrypoints.")
                 logger.error(msg, node_id)
                 raise AttackGraphException(msg % node_id)
+
+        attacker.id = new_attacker_id
+        self.next_attacker_id = max(attacker.id + 1, self.next_attacker_id)
+        for node in reached_nodes:
+            attacker.compromise(node)
+        attacker.entry_points.extend(entry_point_nodes)
         self.attackers.append(attacker)
         self._id_to_attacker[attacker.id] = attacker
 
